@@ -109,3 +109,21 @@ func DebugDNF(p *core.Program, rel, name, callee string) {
 		}
 	}
 }
+
+
+// DebugAckJoin prints the guards of every entry into the acknowledgement section of handleRequest.
+func DebugAckJoin(p *core.Program) {
+	hr := p.Method("handlers/dhcp4_spoofer", "Handler", "handleRequest")
+	j := ackJoin(hr)
+	if j == nil {
+		fmt.Println("no join")
+		return
+	}
+	for k, pr := range j.Preds {
+		var txt []string
+		for _, g := range guardsOf(pr.Instrs[len(pr.Instrs)-1]) {
+			txt = append(txt, shortLease(g.Text))
+		}
+		fmt.Printf("entry %d: %s\n", k+1, strings.Join(txt, " && "))
+	}
+}
